@@ -176,6 +176,9 @@ func dspan(start, end int) string {
 func uspan(side string, start, end int) string {
 	if end-start == 1 {
 		return side + strconv.Itoa(start)
+	} else if end == start {
+		// An empty range is identified by the line that precedes it.
+		return fmt.Sprintf("%s%d,0", side, start-1)
 	}
 	return fmt.Sprintf("%s%d,%d", side, start, end-start)
 }
